@@ -306,7 +306,7 @@ func (h *qhist) versionOf(iv itemView) version {
 		h.t.Fatalf("GetBytesToSign: %v", err)
 	}
 	return version{bytes: bts, coq: fmt.Sprintf("%d %d %d %s %s %d", k, idOf(h.bodyIDs, body), iv.id, emit.ZU(iv.qm.GetGasEstimate()),
-		feesCoq(fees), idOf(h.relIDs, strings.ToLower(iv.em.AssigneeRemoteAddress)))}
+		feesCoq(fees), idOf(h.relIDs, lowerOf(iv.em.AssigneeRemoteAddress)))}
 }
 
 // noteVersions records the current bytes of every item as a version that may be signed later (stale or not).
@@ -365,7 +365,7 @@ func (h *qhist) observe(after string) string {
 				seenRec[rec] = true
 			}
 		}
-		obs = append(obs, emit.Pair(emit.ZU(iv.id), emit.ZI(qchainID(iv.chain)), emit.ZI(k), emit.ZI(idOf(h.relIDs, strings.ToLower(iv.em.AssigneeRemoteAddress))),
+		obs = append(obs, emit.Pair(emit.ZU(iv.id), emit.ZI(qchainID(iv.chain)), emit.ZI(k), emit.ZI(idOf(h.relIDs, lowerOf(iv.em.AssigneeRemoteAddress))),
 			emit.ZU(iv.qm.GetGasEstimate()), feesCoq(fees), emit.List(es), emit.List(sg)))
 	}
 	return emit.List(obs)
@@ -467,7 +467,8 @@ func (h *qhist) opRegister(v int, rows []acctRow) {
 	var rep []string
 	for _, r := range rows {
 		infos = append(infos, &valsettypes.ExternalChainInfo{ChainType: "evm", ChainReferenceID: r.chain, Address: r.addr, Pubkey: r.key})
-		coq = append(coq, emit.Pair(emit.ZI(qchainID(r.chain)), emit.ZI(idOf(h.addrIDs, r.addr)), emit.ZI(idOf(h.keyIDs, hex.EncodeToString(r.key)))))
+		coq = append(coq, emit.Pair(emit.ZI(qchainID(r.chain)), emit.ZI(idOf(h.addrIDs, r.addr)), emit.ZI(idOf(h.keyIDs, hex.EncodeToString(r.key))),
+			emit.ZI(idOf(h.relIDs, lowerOf(r.addr)))))
 		rep = append(rep, fmt.Sprintf("%s %s %x", r.chain, r.addr, r.key))
 	}
 	err := h.e.vs.AddExternalChainInfo(h.e.ctx, h.e.vals[v], infos)
@@ -483,9 +484,11 @@ func (h *qhist) opRegister(v int, rows []acctRow) {
 	h.step(fmt.Sprintf("C06.QRegister %d %s", v, emit.List(coq)), c, map[string]any{"op": "register", "validator": v, "accounts": rep})
 }
 
+// row: the account of private key [key] on [chain]; the address string is spelled as a client might
+// (GetSigningKey compares the named address with the registered STRING, so the model's address id is per string).
 func (h *qhist) row(chain string, key int) acctRow {
 	a := h.keyAddr(key)
-	return acctRow{chain: chain, addr: a.Hex(), key: a.Bytes()}
+	return acctRow{chain: chain, addr: spell(h.run.Rng, a), key: a.Bytes()}
 }
 
 var bodyPool = [][]byte{{1}, {2}, {3, 4}}
@@ -494,7 +497,10 @@ func (h *qhist) opPut() {
 	r := h.run.Rng
 	chain := qchains[r.Intn(len(qchains))]
 	asg := r.Intn(nVals)
-	rel := h.keyAddr(r.Intn(len(h.keys))).Hex()
+	rel := spell(r, h.keyAddr(r.Intn(len(h.keys))))
+	if !strings.HasPrefix(rel, "0x") && !strings.HasPrefix(rel, "0X") {
+		rel = "0x" + rel
+	}
 	em := &evmtypes.Message{ChainReferenceID: chain, TurnstoneID: "compass-" + chain, Assignee: h.e.vals[asg].String(), AssigneeRemoteAddress: rel}
 	needs := r.Intn(4) > 0
 	pay := bodyPool[r.Intn(len(bodyPool))]
@@ -524,7 +530,7 @@ func (h *qhist) opPut() {
 	h.chainOf[id] = chain
 	h.run.Count("op", "put")
 	h.run.Count("kind", fmt.Sprint(kind))
-	h.step(fmt.Sprintf("C06.QPut %d %d %d %d %s", qchainID(chain), kind, idOf(h.bodyIDs, body), idOf(h.relIDs, strings.ToLower(rel)), emit.Bool(needs)), 0,
+	h.step(fmt.Sprintf("C06.QPut %d %d %d %d %s", qchainID(chain), kind, idOf(h.bodyIDs, body), idOf(h.relIDs, lowerOf(rel)), emit.Bool(needs)), 0,
 		map[string]any{"op": "put", "chain": chain, "kind": kind, "id": id, "needs_estimate": needs, "relayer": rel, "payload": hex.EncodeToString(pay)})
 }
 
@@ -562,15 +568,21 @@ func (h *qhist) opSign() {
 			break
 		}
 	}
-	addr := h.keyAddr(r.Intn(len(h.keys))).Hex() // not registered by v (probably)
+	addr := spell(r, h.keyAddr(r.Intn(len(h.keys)))) // not registered by v (probably)
 	signer := r.Intn(len(h.keys))
 	how := "unregistered-address"
 	if named != nil && r.Intn(12) > 0 {
 		addr = named.addr
 		how = "registered"
 		for i := range h.keys {
-			if h.keyAddr(i).Hex() == named.addr {
+			if hex.EncodeToString(h.keyAddr(i).Bytes()) == hex.EncodeToString(named.key) {
 				signer = i
+			}
+		}
+		if r.Intn(8) == 0 {
+			// the registered account, its address written differently: GetSigningKey looks the string up
+			if w := spell(r, common.BytesToAddress(named.key)); w != named.addr {
+				addr, how = w, "registered-respelled"
 			}
 		}
 		if r.Intn(8) == 0 {
@@ -773,7 +785,7 @@ func (h *qhist) opReassign() {
 	id := h.items[r.Intn(len(h.items))]
 	chain := h.chainOf[id]
 	nv := r.Intn(nVals)
-	rel := h.keyAddr(r.Intn(len(h.keys))).Hex()
+	rel := spell(r, h.keyAddr(r.Intn(len(h.keys))))
 	err := h.e.cons.VerifReassignMessageValidator(h.e.ctx, h.e.vals[nv].String(), rel, id, turnstoneQueue(chain))
 	c := classOf(err)
 	if c == 50 {
@@ -784,7 +796,7 @@ func (h *qhist) opReassign() {
 	}
 	h.moved[id] = true
 	h.run.Count("op", "reassign(latent)")
-	h.step(fmt.Sprintf("C06.QReassign %d %d %d", qchainID(chain), id, idOf(h.relIDs, strings.ToLower(rel))), c, map[string]any{"op": "reassign", "id": id, "relayer": rel})
+	h.step(fmt.Sprintf("C06.QReassign %d %d %d", qchainID(chain), id, idOf(h.relIDs, lowerOf(rel))), c, map[string]any{"op": "reassign", "id": id, "relayer": rel})
 }
 
 func (h *qhist) finish() {
